@@ -48,6 +48,8 @@ class Contract:
     is_lemma: bool = False
     quick_restricted: bool = False
     loop_invariants: dict = field(default_factory=dict)   # while-loop ordinal -> {"shapes": {...}, "inv": "..."}
+    returns: str | None = None    # declared result shape: an obligation of the target and the shape callers see
+    log: bool = True              # False: calls of this (assumed) callee are not recorded in ghost call logs
     log_calls: list = field(default_factory=list)     # callees (short names) whose calls are recorded in the ghost call log
     prove_in: str = "both"        # "thorough": the deductive part runs in the thorough tier only (bounded part in both)
     def deductive_body_known(self):
@@ -148,6 +150,10 @@ class Registry:
                         c.prove_in = str(val)
                     elif n == "log_calls":
                         c.log_calls = list(val)
+                    elif n == "log":
+                        c.log = bool(val)
+                    elif n == "returns":
+                        c.returns = str(val)
                 elif isinstance(b, ast.FunctionDef):
                     cprops = props
                     known = []
@@ -349,7 +355,7 @@ def eval_clause(ctx, spec_mi, clause_node, env, path, old_path=None, result=None
             raise Unsupported(f"contract clause {clause_node.name} raises")
 
 
-SPEC_FORMS = {"implies", "old", "iff", "fresh", "ite", "unord", "deep_fresh", "same_object", "forall_elems", "len0"}
+SPEC_FORMS = {"implies", "old", "iff", "fresh", "ite", "unord", "deep_fresh", "same_object", "forall_elems", "len0", "shaped"}
 
 
 def eval_spec_form(ctx, fr, path, node):
@@ -363,6 +369,19 @@ def eval_spec_form(ctx, fr, path, node):
                 else:
                     for r, b in ev(ctx, fr, q, node.args[1]):
                         yield r, ctx.boolval(ctx.truthy(r, b))
+        return
+    if name == "shaped":
+        # shaped(x, "list[pathlib.Path]"): x read with a declared shape (values taken out of a call log carry none);
+        # the shape is assumed, as for any declared shape of an external result
+        text = node.args[1].value
+        spec_mi = ctx.src.module(ctx.current.contract.spec_mod) if ctx.current is not None else fr.mi
+        ann = parse_ann_text(ctx, text, spec_mi, fr.mi)
+        for p, v in ev(ctx, fr, path, node.args[0]):
+            v = ctx.toV(v)
+            f = ann_fact(v.t, ann, ctx.ct)
+            if f is not None:
+                p.assume(f, f"declared shape in spec: {text}")
+            yield p, Val(v.t, ann, own=v.own, deep=v.deep)
         return
     if name == "iff":
         for p, (a, b) in ev_list(ctx, fr, path, node.args):
@@ -630,7 +649,7 @@ def apply_contract_at_call(ctx, fr, path, f: FuncRef, contract: Contract, env, n
             res = _fresh_result(ctx, p, f, contract, env)
         p.note(f"callee contract {contract.target}" + ("" if contract.verify else " (ASSUMED, not verified)"))
         forced = ctx.current is not None and contract.target.split(":")[1] in getattr(ctx.current.contract, "log_calls", [])
-        if "EXT" in p.ghost and (forced or not contract.deductive_body_known()):
+        if "EXT" in p.ghost and contract.log and (forced or not contract.deductive_body_known()):
             # calls that are only known through an assumed / bounded contract are recorded in the activation's call log
             # like external calls: (target, arguments in signature order, result)
             names = [a.arg for a in f.node.args.posonlyargs + f.node.args.args + f.node.args.kwonlyargs]
@@ -656,6 +675,13 @@ def _fresh_result(ctx, path, f, contract, env):
     fn = ctx.func(f"RES_{contract.target}", *([V] * len(vs)), V)
     t = fn(*vs) if vs else z3.Const(f"RES_{contract.target}", V)
     ann = None
+    if contract.returns:
+        spec_mi = ctx.src.module(contract.spec_mod)
+        ann = parse_ann_text(ctx, contract.returns, spec_mi, f.mi)
+        fct = ann_fact(t, ann, ctx.ct) if ann is not None else None
+        if fct is not None:
+            path.assume(fct, f"declared result shape of {contract.target} (an obligation of its own verification)")
+        return Val(t, ann, own="fresh")
     if not contract.verify and f.node.returns is not None:
         # assumed contract: the declared return annotation is part of the assumption
         ann = ctx.parse_ann(f.mi, f.node.returns)
@@ -761,6 +787,11 @@ def verify_contract(ctx, contract: Contract, prop: str):
                 return
             res = o.value if o.kind == "ret" else ctx.lift(None)
             res = ctx.toV(res) if not isinstance(res, Val) else res
+            if contract.returns:
+                rann = parse_ann_text(ctx, contract.returns, spec_mi, mi)
+                rf = ann_fact(res.t, rann, ctx.ct) if rann is not None else None
+                if rf is not None:
+                    ctx.oblige(q, rf, "ensures", "returns-shape")
             # raises-iff: returning normally means no declared raise condition held
             if isinstance(contract.raises, dict):
                 for ename, cl in contract.raises.items():
